@@ -199,6 +199,21 @@ def probe_cases(ctx, ws, cwd, asm0, which, part=0, nparts=1):
                     compare(ctx, ws, cwd, rp, asm0, False, True, True, macros, "probe-macro-order")
                     ctx.event("macro_order_probes")
     else:
+        # file names beginning with '@' (JASM's own macro sigil) or containing blanks, given as relative paths from the working directory
+        here = os.getcwd()
+        os.chdir(cwd)
+        try:
+            for nm, text in (("@frame.yaml", real.dump_rule({"macros": [{"name": "@fr", "pattern": "push"}]})), ("@rule.yaml", real.dump_rule({"pattern": ["@fr", "mov"]})),
+                             ("@in.s", RELOC), ("my rule.yaml", real.dump_rule({"pattern": ["push", "mov"]})), ("in put.s", RELOC)):
+                with open(os.path.join(cwd, nm), "w") as f:
+                    f.write(text)
+            for rule, inp, macros in (("@rule.yaml", "@in.s", ["@frame.yaml"]), ("my rule.yaml", "in put.s", None), ("@rule.yaml", "in put.s", ["./@frame.yaml"]),
+                                      ("my rule.yaml", "@in.s", ["@frame.yaml"])):
+                for am in (False, True):
+                    compare(ctx, ws, cwd, rule, inp, False, am, True, macros, "probe-file-names")
+                    ctx.event("file_name_probes")
+        finally:
+            os.chdir(here)
         lp = ws.write("reloc.s", RELOC)
         for pat in (["push", "mov"], [{"push": ["%rbp"]}], ["ret"], ["mov", "ret"]):
             rp = ws.write("probe_rule.yaml", real.dump_rule({"pattern": pat}))
